@@ -1629,6 +1629,43 @@ Proof.
     exists (w :: ws). rewrite F2, Q2, Q1. split; [reflexivity|constructor; assumption].
 Qed.
 
+(* ---- data from the upstream server never changes the forwarding state ---- *)
+Lemma read_from_upstream_fwd cs raw : c_fwd (read_from_upstream cs raw) = c_fwd cs.
+Proof.
+  unfold read_from_upstream. destruct (h_upstream (c_fwd cs)) as [up|]; [|reflexivity].
+  destruct (up_closed up); [reflexivity|].
+  destruct (negb (is_https_tunnel (h_request (c_fwd cs)))); [|reflexivity].
+  destruct (is_complete (c_response cs)).
+  - destruct (handle_pipeline_response (c_pipeline_response cs) raw); reflexivity.
+  - destruct (parse (c_response cs) raw); reflexivity.
+Qed.
+
+(* hence: however upstream data is interleaved with the client's pieces, the forwarding side of the connection
+   goes through exactly the states it goes through without any upstream data *)
+Theorem interleaving_irrelevant cfg ok : forall evs cs,
+  forwarding_outcome (run_events cfg ok cs evs) = feed cfg ok (c_fwd cs) (client_pieces evs).
+Proof.
+  induction evs as [|[x|x] t IH]; intros cs; cbn [run_events client_pieces flat_map app feed forwarding_outcome].
+  - reflexivity.
+  - fold (client_pieces t). destruct (handle_data cfg ok (c_fwd cs) x) as [[|] st'|e st']; cbn [forwarding_outcome with_fwd c_fwd]; try reflexivity.
+    rewrite IH. reflexivity.
+  - fold (client_pieces t). rewrite IH, read_from_upstream_fwd. reflexivity.
+Qed.
+
+Theorem connection_interleaved cfg first rest evs : wf_cfg cfg = true -> auth_passes cfg (fst first) = true ->
+  Forall request_pieces (first :: rest) ->
+  Forall (fun rs => is_upgrade_request (fst rs) = false) (removelast (first :: rest)) ->
+  client_pieces evs = concat (map snd (first :: rest)) ->
+  exists cs ws, run_events cfg true init_cstate evs = CDone false cs /\ upstream_queue (c_fwd cs) = ws /\
+                Forall2 (forwarded_as cfg) ws (first :: rest).
+Proof.
+  intros Wc Wa F Fu E. destruct (connection cfg first rest Wc Wa F Fu) as (ws & Hf & Hw).
+  pose proof (interleaving_irrelevant cfg true evs init_cstate) as I. rewrite E in I. cbn [init_cstate c_fwd] in I.
+  unfold forward in Hf. destruct (feed cfg true init_state (concat (map snd (first :: rest)))) as [[|] st'|e st'] eqn:Ef; try discriminate.
+  destruct (run_events cfg true init_cstate evs) as [b cs|e cs]; cbn [forwarding_outcome] in I; [|discriminate].
+  inversion I; subst. exists cs, ws. split; [reflexivity|]. split; [congruence|exact Hw].
+Qed.
+
 (* ---- the remainder loop of on_client_data: no result depends on the amount of fuel ---- *)
 Lemma client_loop_fuel_mono cfg : forall f st raw o, on_client_data_loop f cfg st raw = o ->
   (forall st', o <> Raised OutOfFuel st') -> forall k, on_client_data_loop (f + k) cfg st raw = o.
